@@ -28,4 +28,24 @@ fn main() {
     let out = Path::new(&std::env::var("OUT_DIR").unwrap()).join("mods.rs");
     fs::write(out, s).unwrap();
     println!("cargo:rerun-if-changed=src");
+    // optional hooks: cfg(verif_h7) when the ddnnife sources the harness is built against contain
+    // hook H7 (repo_patches/H7-titer.patch: verif_t_indices / verif_t_interactions)
+    println!("cargo::rustc-check-cfg=cfg(verif_h7)");
+    let manifest = Path::new(env!("CARGO_MANIFEST_DIR")).join("Cargo.toml");
+    println!("cargo:rerun-if-changed={}", manifest.display());
+    if let Ok(txt) = fs::read_to_string(&manifest) {
+        if let Some(line) = txt.lines().find(|l| l.trim_start().starts_with("ddnnife ") || l.trim_start().starts_with("ddnnife=")) {
+            if let Some(p0) = line.find("path") {
+                let rest = &line[p0..];
+                if let (Some(a), Some(b)) = (rest.find('"'), rest[rest.find('"').unwrap() + 1..].find('"')) {
+                    let dep = &rest[a + 1..a + 1 + b];
+                    let f = Path::new(dep).join("src/ddnnf/anomalies/t_wise_sampling.rs");
+                    println!("cargo:rerun-if-changed={}", f.display());
+                    if fs::read_to_string(&f).map(|t| t.contains("pub fn verif_t_indices")).unwrap_or(false) {
+                        println!("cargo:rustc-cfg=verif_h7");
+                    }
+                }
+            }
+        }
+    }
 }
